@@ -3013,7 +3013,9 @@ def delete_commented_code(source: str) -> str:
         start_offset = 0
         end_offset = 0
 
-        line_lengths = [len(line) for line in commented_block.group().splitlines(keepends=True)]
+        # Only a line feed separates the lines of the block: str.splitlines would also split at a
+        # form feed or vertical tab INSIDE a comment, and the text behind it would be left as code
+        line_lengths = [len(line) for line in re.findall(r"[^\n]*\n|[^\n]+", commented_block.group())]
 
         for si in range(len(line_lengths)):
             for se in range(len(line_lengths)):
